@@ -1,6 +1,7 @@
 import HdModel.Model.Util
 import HdModel.Spec.Pool
 import HdModel.Model.PoolCompact
+import HdModel.Model.Builder
 namespace Hd.Pool
 
 def splitSemi (l : List String) : List (List String) :=
@@ -193,6 +194,32 @@ end Hd.Pool
 
 namespace Hd.Pool
 
+/-- the builder calls of the harness' sequence `seq` (the table in `harness/src/cfgp.rs`, call for call) -/
+def cfgpCalls (seq : Nat) (cfg : Builder.PoolCfg) (reqT : Option Nat) (red : String) (ua : Bool) : Builder.B × List Builder.Call :=
+  let redCall : Builder.Call := if red == "n" then .withoutRedirects else if red == "s" then .withStandardRedirectPolicy else .withRedirectPolicy 3
+  let uaCall : List Builder.Call := if ua then [.withUserAgent "hdverif-agent/7"] else []
+  let finish : List Builder.Call := [.withAutoHttp, .withoutTls, .withOptionalTimeout reqT] ++ uaCall ++ [redCall]
+  let first : List Builder.Call := [.withPool cfg, .withOptionalTimeout reqT] ++ uaCall
+  let chain := fun (f : List Builder.Call) => first ++ [redCall] ++ f ++ [.withoutTls]
+  let other : Builder.PoolCfg := { maxIdle := 17, idleTimeout := some 3000 }
+  match seq with
+  | 0 => (Builder.new, [.withTransport, .withPool cfg] ++ finish)
+  | 1 => (Builder.new, [.withTransport, .withDefaultPool, .withPool cfg] ++ finish)
+  | 2 => (Builder.new, [.withTransport, .withoutPool, .withPool cfg] ++ finish)
+  | 3 => (Builder.new, [.withPool cfg, .withTransport] ++ finish)
+  | 4 => (Builder.new, [.withTransport, .withPool other, .withPool cfg] ++ finish)
+  | 5 => (Builder.dflt, [.withTransport, .withPool cfg] ++ finish)
+  | 6 => (Builder.new, [.withTransport, .withDefaultPool, .editPool cfg] ++ finish)
+  | 7 => (Builder.new, chain [.withTransport, .withAutoHttp])
+  | 8 => (Builder.new, chain [.withAutoHttp, .withTransport])
+  | 9 => (Builder.new, chain [.withTcp, .withTransport, .withAutoHttp])
+  | 10 => (Builder.new, chain [.withTransport, .withProtocol])
+  | 11 => (Builder.new, first ++ [.withTransport, .withAutoHttp, .withRedirectPolicy 3, .withoutTls])
+  | 12 => (Builder.new, first ++ [.withTransport, .withAutoHttp, .withStandardRedirectPolicy, .withoutTls])
+  | 13 => (Builder.new, first ++ [.withTransport, .withAutoHttp, .withoutRedirects, .withoutTls])
+  | 14 => (Builder.new, chain [.withTransport, .withAutoHttp, .layer])
+  | _ => (Builder.new, chain [.withTransport, .withAutoHttp, .withBody])
+
 /-- Stream `cfgp`: a client assembled by `Client::builder` with a pool configuration given in one of several ways
     (`<seq>` - irrelevant to the model: however the configuration gets there, it is the one the pool enforces),
     a burst of `n` concurrent HTTP/1.1 requests to one origin, all answered and released; then, after `wait` ms,
@@ -202,25 +229,34 @@ namespace Hd.Pool
 def cfgpLine (inp obs : List String) : Bool × Bool × String × String :=
   if obs == ["unreliable"] then (true, true, "-", "skipped") else
   match inp, obs with
-  | [_seq, mi, it, nT, waitT, reqT, red, ua], [openT, totalT, uaO, slowO, redirO] =>
-    let cfg : Config := { idleTimeout := idleTok it, maxIdle := natTok mi, cap := true, lax := false }
+  | [seqT, mi, it, nT, waitT, reqT, red, ua], [openT, totalT, uaO, slowO, redirO] =>
+    -- what the builder model says is configured after the calls of this sequence (`Props/Builder.lean`: each setting is what
+    -- the last call about it said, whatever calls came in between)
+    let asked : Builder.PoolCfg := { maxIdle := natTok mi, idleTimeout := idleTok it }
+    let (b0, calls) := cfgpCalls (natTok seqT) asked reqT.toNat? red (ua == "1")
+    let b := Builder.run b0 calls
     let n := natTok nT
-    let rs := List.range n
-    let ops : List Op :=
-      (rs.flatMap fun r => [.issue r 0 false, .poll r]) ++ (rs.flatMap fun r => [.dialDone r (.ok .asRequested), .poll r]) ++
-      (rs.flatMap fun r => [.finish r, .connReady r, .run])
-    let s := ops.foldl (fun s op => (step s op).1) (init cfg)
-    let t := (tokenOf s 0).2
-    let kept := (s.idle t).length
-    let s := (step s (.tick (natTok waitT + 20))).1
-    let s := (step s (.issue 100 0 false)).1
-    let (_, res) := step s (.poll 100)
-    let total := match res with | .got _ _ => n | _ => n + 1
-    -- the rest of the configuration: the user agent as given (or the crate's own), the request timeout against a handler
-    -- that takes 400 ms (`Timeout.pollOnce`'s verdict at the deadline), redirects followed unless switched off
-    let uaM := s!"ua={ua}"
-    let slowM := match reqT.toNat? with | some d => if d < 400 then "slow=timeout" else "slow=ok" | none => "slow=ok"
-    let redirM := if red == "n" then "redir=302" else "redir=200"
+    -- the pool part: the same history through the pool model with the pool configuration in effect (none: no pool at all)
+    let (kept, total) := match b.pool with
+      | none => (0, n + 1)
+      | some pc =>
+        let cfg : Config := { idleTimeout := pc.idleTimeout, maxIdle := pc.maxIdle, cap := true, lax := false }
+        let rs := List.range n
+        let ops : List Op :=
+          (rs.flatMap fun r => [.issue r 0 false, .poll r]) ++ (rs.flatMap fun r => [.dialDone r (.ok .asRequested), .poll r]) ++
+          (rs.flatMap fun r => [.finish r, .connReady r, .run])
+        let s := ops.foldl (fun s op => (step s op).1) (init cfg)
+        let t := (tokenOf s 0).2
+        let kept := (s.idle t).length
+        let s := (step s (.tick (natTok waitT + 20))).1
+        let s := (step s (.issue 100 0 false)).1
+        let (_, res) := step s (.poll 100)
+        (kept, match res with | .got _ _ => n | _ => n + 1)
+    -- the rest: the user agent given (or the crate's own), the request timeout against a handler that takes 400 ms
+    -- (`Timeout.pollOnce`'s verdict at the deadline), redirects followed iff a policy is configured
+    let uaM := s!"ua={boolTok b.userAgent.isSome}"
+    let slowM := match b.timeout with | some d => if d < 400 then "slow=timeout" else "slow=ok" | none => "slow=ok"
+    let redirM := if b.redirect.isNone then "redir=302" else "redir=200"
     let shown := s!"{kept} {total} {uaM} {slowM} {redirM}"
     let okOpen := openT == toString kept
     let okTotal := totalT == toString total
